@@ -620,7 +620,8 @@ PROP = dict(
          "combination of {equal, shorter, longer, empty} for the partition array and each other input (16 or 64 combinations), "
          "then well-formed slots that enumerate every position j < n <= 8 of an id above one (FM) / of a negative weight "
          "(VnBest, i64 and f64), orders max+1, above max, huge, u32::MAX and valid (HilbertCurve), an id equal to usize::MAX "
-         "(VnBest, VnFirst, ArcSwap) and well-formed controls; arrays pre-filled with recognisable garbage; distinct = distinct "
+         "(VnBest, VnFirst, ArcSwap), degenerate parameters (iter_count 0/1/2, part_count 0/1/2/3/5, order 0..max, tolerances 0 and "
+         "negative, max_imbalance None/0, max_passes 0) and well-formed controls; arrays pre-filled with recognisable garbage; distinct = distinct "
          "(entry point, array, weight signs, lengths, part_count, order); non-trivial = some clause of the property applies "
          "(a length differs, an id above one for FM, a negative weight for VnBest, an order above the maximum)",
     class_names={0: "model: InputLenMismatch", 1: "model: BiPartitioningOnly", 2: "model: NegativeValues",
@@ -652,8 +653,9 @@ MANIFEST = dict(
          "InputLenMismatch for Rcb, Rib, Greedy, KarmarkarKarp, CompleteKarmarkarKarp, VnBest, VnFirst, FiducciaMattheyses, ArcSwap; "
          "FM yields BiPartitioningOnly for an id above one; VnBest yields NegativeValues for a negative weight at any position; "
          "HilbertCurve yields InvalidOrder above 32 (2-D) / 21 (3-D); in every error case the array is untouched and nothing panics. "
-         "The interpretation of the lists is compared with the real entry points on a malformed stream, and an independent checker "
-         "judges every implementation result.",
+         "The interpretation of the lists is compared with the real entry points on a malformed stream, and a checker computed from "
+         "the input shape alone and proved equivalent to the property on one call (C20_checker_decides) judges every observation: "
+         "when a clause applies, anything but a promised error with the array untouched is a rejection.",
     design_ref="DESIGN.md §7 C20",
     note="Trusted: Coq kernel; the guard-list translator (fails closed on unrecognised early exits); statements not mentioning the "
          "partition are assumed not to write it; differential runs (3.3k/33k calls, public API, catch_unwind + watchdog). "
